@@ -136,9 +136,20 @@ func (rn *runner) recoverOne(st *state) *simcore.Violation {
 	}
 	rn.mu.Lock()
 	pre := liveSet(rn.m)
+	var passing []common.Hash // states Recover passes through: each is the single layer of the tree for a moment
+	for j := k + 1; j < uint64(len(rn.m.canon)); j++ {
+		passing = append(passing, rn.m.canon[j].root)
+	}
 	rn.m.recoverTo(k)
 	rn.recovers = append(rn.recovers, recoverRec{seq: rn.w.clock.Now(), k: k})
 	t0 := rn.beginMut(pre)
+	for _, r := range passing {
+		if ls := rn.lives[r]; len(ls) > 0 && ls[len(ls)-1].dropStart == t0 {
+			continue // was live before the call: its interval already ends with this operation
+		}
+		// transiently in the tree during the call: never surely live, not surely dead either
+		rn.lives[r] = append(rn.lives[r], &life{addStart: t0, dropStart: t0})
+	}
 	rn.recStarted++
 	rn.mu.Unlock()
 	var err error
